@@ -377,6 +377,8 @@ def run(chk: Check) -> None:
             "scope_in_shield": "scope_in_shield" in feats,
             "shield_in_scope": "shield_in_scope" in feats,
             "uses_cancel_or_resched": bool(feats & {"cancel", "resched"}),
+            # the history is fine up to the moment the external cancellation was requested
+            "rejected_after_external_cancel": bool(ext < INF and failing is not None and failing["t"] >= ext),
         }
         chk.violation(
             sig,
